@@ -56,7 +56,9 @@ def generateIntrospectionXML(objectPath, exportedObjects):
     for path in exportedObjects.keys():
         if path.startswith(objectPath):
             path = path[len(objectPath):].partition('/')[0]
-            if path not in matches:
+            # the root object's own path ('/') leaves an empty remainder: it
+            # is the node itself, not a child
+            if path and path not in matches:
                 matches.append(path)
 
     if obj is None and not matches:
